@@ -22,6 +22,7 @@ def units(tier, seed):
     us += bscope.units(tier, seed)
     for i in range(5):
         us.append({"kind": "front-sources", "stream": i, "label": f"front-sources:{i}", "seed": seed, "tier": tier})
+        us.append({"kind": "file-sources", "stream": i, "label": f"file-sources:{i}", "seed": seed, "tier": tier})
     return us
 
 
@@ -164,7 +165,7 @@ def front_sources(acc, unit):
 
     label, msgs, _ = c15.streams(unit["seed"])[unit["stream"]]
     carried = b"".join(msgs)
-    for fname, front, t in (("hex", Hex, text.hex_text(carried, "lower", " ")), ("hex-dense", Hex, text.hex_text(carried, "upper", "")), ("swtpm", SWTPMLog, text.swtpm_log([("io", m, "Read" if i % 2 == 0 else "Write") for i, m in enumerate(msgs)], ("log",), per_line=8))):
+    for fname, front, t in (("hex", Hex, text.hex_text(carried, "lower", " ")), ("hex-dense", Hex, text.hex_text(carried, "upper", "")), ("hex-crlf", Hex, text.hex_text(carried, "mixed", "\r\n")), ("swtpm", SWTPMLog, text.swtpm_log([("io", m, "Read" if i % 2 == 0 else "Write") for i, m in enumerate(msgs)], ("log",), per_line=8))):
         for cut in range(len(t) + 1):
             p = t[:cut]
             base = None
@@ -219,7 +220,62 @@ def front_sources(acc, unit):
                 acc.violation({"clause": "front-end-not-incremental", "front": fname.split("-")[0], "text_ends": eof}, {"harness": "front-sources", "front": fname, "stream": unit["stream"], "cut": cut, "input": p.hex()}, f"{fname} text cut at {cut} (carries {len(have)} complete bytes, text ends: {eof}): {base[1]} after {len(base[0])} events, expected {want[1]} after {len(want[0])} events", size=cut)
 
 
+def file_sources(acc, unit):
+    """io.bytes_from_files over files whose data arrives in pieces (a pipe, a slow writer): every way of delivering a
+    stream in two pieces, and one message per read - the bytes supplied must be all the bytes written"""
+    import io
+
+    from . import c15
+
+    loader.load()
+    from tpmstream.io import bytes_from_files
+
+    class Pieces(io.RawIOBase):
+        def __init__(self, parts):
+            self.parts = [bytes(p) for p in parts if p]
+            self.mode = "rb"
+
+        def readable(self):
+            return True
+
+        def readinto(self, b):
+            if not self.parts:
+                return 0
+            p = self.parts[0]
+            n = min(len(b), len(p))
+            b[:n] = p[:n]
+            if n == len(p):
+                self.parts.pop(0)
+            else:
+                self.parts[0] = p[n:]
+            return n
+
+    label, msgs, _ = c15.streams(unit["seed"])[unit["stream"]]
+    data = b"".join(msgs)
+    splits = [[data[:i], data[i:]] for i in range(len(data) + 1)] + [list(msgs)] + [[bytes([x]) for x in data]]
+    for parts in splits:
+        for nfiles in (1, 2):
+            acc.count("evaluations")
+            acc.count("source_runs")
+            if nfiles == 1:
+                files = [io.BufferedReader(Pieces(parts))]
+            else:
+                files = [io.BufferedReader(Pieces(parts[:1])), io.BufferedReader(Pieces(parts[1:]))]
+            try:
+                got = bytes(bytes_from_files(files))
+            except Exception as e:  # noqa: BLE001
+                got = "ESCAPE:" + type(e).__name__
+            acc.shape(("file-source", unit["stream"], len(parts[0]), nfiles))
+            if got != data:
+                acc.violation({"clause": "file-source-loses-bytes", "files": nfiles}, {"harness": "file-sources", "stream": unit["stream"], "pieces": [p.hex() for p in parts][:4], "files": nfiles}, f"a file delivering {len(data)} bytes in {len(parts)} piece(s) ({nfiles} file(s)) supplied {len(got) if isinstance(got, bytes) else got} bytes", size=len(parts[0]))
+    acc.sample({"unit": unit["label"], "deliveries": len(splits) * 2, "what": "every two-piece delivery, one message per read, one byte per read"}, cap=1)
+
+
 def run_unit(unit):
+    if unit["kind"] == "file-sources":
+        acc = Acc()
+        file_sources(acc, unit)
+        return acc
     if unit["kind"] == "front-sources":
         acc = Acc()
         loader.load()
